@@ -89,7 +89,7 @@ def group (recs : List Rec) : Option Bytes × List Group :=
     | .size name n => add name (fun g => { g with size := some n })
         { name := name, kind := entryType name, sums := [], size := some n }) (none, [])
 
-def document (b : Bytes) : Option Bytes × List Group :=
+def distinfoDocument (b : Bytes) : Option Bytes × List Group :=
   group ((M.splitNl' b).filterMap recognise)
 
 /-! ### canonical layout (C10) -/
@@ -124,7 +124,7 @@ def clineName : CLine → Bytes
 /-- canonical: Id line, blank line, blocks of consecutive lines per file (checksums, then at
     most one Size, last), every file once, distfile blocks before patch blocks, no Size for
     patches; ends with '\n' -/
-def canonical (f : Bytes) : Bool :=
+def canonicalDistinfo (f : Bytes) : Bool :=
   match M.splitNl' f with
   | id :: blank :: rest =>
     (id == M.ascii "$NetBSD$" || (M.ascii "$NetBSD: ").isPrefixOf id) && blank.isEmpty &&
